@@ -21,6 +21,7 @@ INJECT = [
     ("zkchannels-crypto/src/proofs/challenge.rs", "zc_challenge.rs"),
     ("zkabacus-crypto/src/merchant.rs", "za_merchant.rs"),
     ("zkabacus-crypto/src/states.rs", "za_states.rs"),
+    ("zkabacus-crypto/src/customer.rs", "za_customer.rs"),
     ("zkabacus-crypto/src/proofs.rs", "za_proofs.rs"),
 ]
 
@@ -42,6 +43,7 @@ TESTS = {
     "standin_establish_tuple": ("zkabacus-crypto", ["C06", "C01"], ["zproofs.EstablishProof::new", "zproofs.EstablishProof::verify"]),
     "standin_pay_tuple": ("zkabacus-crypto", ["C06", "C02"], ["zproofs.PayProof::new", "zproofs.PayProof::verify"]),
     "standin_no_hidden_slot_exposed": ("zkabacus-crypto", ["C14"], ["zproofs.EstablishProof::new", "zproofs.PayProof::new"]),
+    "standin_restore_continues": ("zkabacus-crypto", ["C20", "C03"], ["customer.Requested/Inactive/Ready/Started/Locked (serde derives)", "customer.*::close", "customer.Started::lock"]),
     "standin_merchant_flow": ("zkabacus-crypto", ["C04", "C05", "C03", "C01", "C02"], ["merchant.Config::*", "merchant.Unrevoked::complete_payment", "customer.*"]),
 }
 
